@@ -33,9 +33,22 @@ pub fn set_lru_capacity(capacity: usize) {
 
 pub fn lru_capacity() -> Option<usize> {
     match LRU_CAPACITY.load(Ordering::SeqCst) {
-        0 => None,
+        0 => env_lru_capacity(),
         n => Some(n),
     }
+}
+
+/// `CHESS_VERIF_LRU_CAPACITY=<n>` sets the knob for a whole process (the real
+/// binary under process-level simulation, where no harness code can call
+/// `set_lru_capacity`). Unset => `None` (the shipped capacity).
+fn env_lru_capacity() -> Option<usize> {
+    static FROM_ENV: std::sync::OnceLock<Option<usize>> = std::sync::OnceLock::new();
+    *FROM_ENV.get_or_init(|| {
+        std::env::var("CHESS_VERIF_LRU_CAPACITY")
+            .ok()
+            .and_then(|v| v.trim().parse::<usize>().ok())
+            .filter(|n| *n > 0)
+    })
 }
 
 /// Stand-in for `lru::LruCache` in the move generator: identical behaviour,
